@@ -339,9 +339,18 @@ func newE4(c *Ctx, rule string) (*e4Engine, error) {
 
 // shortDesc: a short, source-level description of a value (parameter/field/callee names), used in
 // obligation keys. No SSA register names, no positions.
+// sdSubst: while a helper's guard is rendered in its caller's terms, the helper's parameters stand for the
+// descriptions of the arguments (the analysis is single-threaded)
+var sdSubst map[ssa.Value]string
+
 func shortDesc(v ssa.Value, d int) string {
 	if v == nil {
 		return ""
+	}
+	if sdSubst != nil {
+		if s, ok := sdSubst[v]; ok {
+			return s
+		}
 	}
 	if d <= 0 {
 		return "…"
@@ -611,14 +620,46 @@ func factMatches(facts []guardFact, rq string) bool {
 		frag, pol = rq[:i], rq[i+2:]
 	}
 	for _, f := range facts {
-		if !strings.Contains(f.str, frag) {
-			continue
-		}
-		if pol == "" || strings.HasSuffix(f.str, "="+pol) {
-			return true
+		for _, fs := range []string{f.str, flipCmpFact(f.str)} {
+			if fs == "" || !strings.Contains(fs, frag) {
+				continue
+			}
+			if pol == "" || strings.HasSuffix(fs, "="+pol) {
+				return true
+			}
 		}
 	}
 	return false
+}
+
+// flipCmpFact: the same fact written from the other side: bin[<](A,B)=true ≡ bin[<=](B,A)=false and
+// bin[<=](A,B)=true ≡ bin[<](B,A)=false (and the two with the polarities exchanged); "" when not a comparison
+func flipCmpFact(s string) string {
+	var op, other string
+	switch {
+	case strings.HasPrefix(s, "bin[<]("):
+		op, other = "bin[<](", "bin[<=]("
+	case strings.HasPrefix(s, "bin[<=]("):
+		op, other = "bin[<=](", "bin[<]("
+	default:
+		return ""
+	}
+	i := strings.LastIndex(s, ")=")
+	if i < 0 {
+		return ""
+	}
+	body, pol := s[len(op):i], s[i+2:]
+	j := splitTop(body, ",")
+	if j < 0 {
+		return ""
+	}
+	np := "true"
+	if pol == "true" {
+		np = "false"
+	} else if pol != "false" {
+		return ""
+	}
+	return other + body[j+1:] + "," + body[:j] + ")=" + np
 }
 
 // callersMissing: call sites of f (in the closure) not dominated by any of the facts
